@@ -60,6 +60,9 @@ class Reach:
                 if s in self.IN:
                     work.append((s, env, nxt))
 
+    def defs_of(self, l):
+        return [did for did in self.defs if did[0] == l]
+
     def at(self, l, bb, pos):
         """definitions of local l reaching program point (bb, pos) (pos: stmt index, or 10**6 for the terminator)"""
         last = None
@@ -226,6 +229,24 @@ FLIP = {"gt": "lt", "ge": "le", "Gt": "Lt", "Ge": "Le"}
 CMP_NAMES = {"lt", "le", "gt", "ge", "eq", "ne"}
 
 
+_MU_DEPTH = [0]
+GENS = None  # optional callable(mu term) -> iterable of generator shapes (set by Skel)
+
+
+def _is_queue_or_table(t):
+    from .core import component
+    t = strip(t)
+    while t[0] == "defat":
+        t = strip(t[2])
+    if t[0] == "param" and t[2] == 1:
+        return True
+    if component(t):
+        return True
+    if t[0] == "field" and t[2] in ("store", "pq") :
+        return True
+    return False
+
+
 PRIO_CMP_SITES = None  # optional callable(site) -> bool, set by the caller (R-SIFT) to mark comparisons of priorities
 
 
@@ -247,6 +268,8 @@ def canon(t, closure_body=None, depth=0):
     if k == "fnconst":
         return "fn:" + t[1]
     if k == "field":
+        if t[2] == "size" and t[3] == "store::Store":
+            return "LEN"
         return "%s.%s" % (c(t[1]), t[2])
     if k == "index":
         return "%s[%s]" % (c(t[1]), c(t[2]))
@@ -258,8 +281,13 @@ def canon(t, closure_body=None, depth=0):
         return "discr(%s)" % c(t[1])
     if k == "call":
         name = t[1]
-        args = [c(a) for a in t[2]]
         short = name.split("::")[-1]
+        # every way of asking for the number of elements is the same quantity (representation invariant)
+        if short == "len" and len(t[2]) == 1 and _is_queue_or_table(t[2][0]):
+            return "LEN"
+        if short == "is_empty" and len(t[2]) == 1 and _is_queue_or_table(t[2][0]):
+            return "Eq(0_usize,LEN)"
+        args = [c(a) for a in t[2]]
         if short in ("get_unchecked", "get_unchecked_mut", "index", "index_mut") and len(args) == 2:
             return "%s[%s]" % (args[0], args[1])   # element access, checked or not
         pre = "p" if (PRIO_CMP_SITES and len(t) > 3 and t[3] and PRIO_CMP_SITES(t[3])) else ""
@@ -300,9 +328,27 @@ def canon(t, closure_body=None, depth=0):
         body = closure_body(t[1]) if closure_body else t[1]
         return "closure{%s}[%s]" % (body, ",".join(c(a) for a in t[2]))
     if k == "mu":
-        return "mu{%s}" % "|".join(sorted(c(a) for a in t[1]))
+        # loop-carried value: rendered by the set of one-step generator shapes of the variable(s) it cycles through
+        # (copies between loop-carried variables are closed over), independent of where the cycle happened to be cut:
+        # `p = parent(p)` and `pp = parent(p); p = pp` are the same thing
+        if _MU_DEPTH[0] > 0:
+            return "μ"
+        _MU_DEPTH[0] += 1
+        try:
+            alts = set()
+            if GENS is not None:
+                g = GENS(t)
+                if g is not None:
+                    alts = set(g)
+            if not alts:
+                for a in t[1]:
+                    alts.add(c(a))
+        finally:
+            _MU_DEPTH[0] -= 1
+        alts = sorted(a for a in alts if a != "μ") or ["μ"]
+        return "M{%s}" % "|".join(alts)
     if k == "rec":
-        return "rec%s" % (t[1] if len(t) == 2 else "")
+        return "μ"
     if k == "phi":
         return "phi{%s}" % "|".join(sorted(c(a) for a in t[4]))
     if k == "cparam":
